@@ -14,7 +14,7 @@ CHECKS = {
                      "over the prefixes of every sampled history (thorough: every prefix; quick: the end and three PRNG-chosen prefixes). Evidence over "
                      "the sampled histories/configurations, exhaustive only in the unplug position per history.",
                 note="Trusted: the simgen rewriting (DESIGN Appendix A), synctest's fake clock, the receiver model (Note On/Off/CC123 semantics). "
-                     "One known finding (same key code on two sub-handlers) is listed in known_findings.jsonl."),
+                     "The defects found here (three stuck-note histories) were repaired in /repo; known_findings.jsonl holds no open finding."),
     "C02": dict(level="exploration", ref="DESIGN.md §4 C02",
                 text="Seeded histories with state-changing actions between press and release; per-step comparison with the model's pinned (channel, pitch) "
                      "and the rule that state actions emit nothing.",
